@@ -233,6 +233,17 @@ theorem dropCheckout_dials (s : State) (r : ReqId) : (dropCheckout s r).dialCoun
       · show (dropRx (cancelIfOwner (returnUnused (takeConn s r c) c) c) r).dialCount = _
         rw [dropRx_dials, cancelIfOwner_dials, h1]
 
+theorem abortTask_dials (s : State) (i : Nat) : (abortTask s i).dialCount = s.dialCount := by
+  unfold abortTask
+  split
+  · rfl
+  · rfl
+  · split
+    · rfl
+    · simp only []
+      show (cancelIfOwner _ _).dialCount = _
+      rw [cancelIfOwner_dials]; rfl
+
 theorem abortAll_dials : ∀ (fuel : Nat) (s : State), (abortAll fuel s).dialCount = s.dialCount
   | 0, _ => rfl
   | fuel + 1, s => by
@@ -297,6 +308,11 @@ theorem C04_only_polls_dial (s : State) (op : Op) (hp : ∀ r, op ≠ .poll r) (
         split
         · exact dropCheckout_dials s r
         · rfl
+  | cancelOff r =>
+    simp only [step]
+    cases hh : s.held r with
+    | some p => simp only []; rw [abortTask_dials, dropPooled_dials]
+    | none => rfl
   | dialDone r o =>
     simp only [step]
     split <;> rfl
